@@ -1061,3 +1061,87 @@ func ReturnResult(r *ssa.Return, i int) ssa.Value {
 	}
 	return v
 }
+
+// NormCell maps reloads of one (captured) variable to one representative, and
+// a variable assigned exactly once to the value assigned.
+func NormCell(v ssa.Value) ssa.Value {
+	for i := 0; i < 8; i++ {
+		u, ok := v.(*ssa.UnOp)
+		if !ok || u.Op != token.MUL {
+			return v
+		}
+		cell := u.X
+		if fv, ok := cell.(*ssa.FreeVar); ok {
+			if b := bindingOf(fv); b != nil {
+				cell = b
+			} else {
+				return fv
+			}
+		}
+		al, ok := cell.(*ssa.Alloc)
+		if !ok {
+			return cell
+		}
+		sts := CellStores(al)
+		if len(sts) != 1 {
+			return al
+		}
+		v = sts[0].Val
+	}
+	return v
+}
+
+func bindingOf(fv *ssa.FreeVar) ssa.Value {
+	f := fv.Parent()
+	par := f.Parent()
+	if par == nil {
+		return nil
+	}
+	idx := -1
+	for i, x := range f.FreeVars {
+		if x == fv {
+			idx = i
+		}
+	}
+	var out ssa.Value
+	for _, b := range par.Blocks {
+		for _, ins := range b.Instrs {
+			if mc, ok := ins.(*ssa.MakeClosure); ok && mc.Fn == f && idx >= 0 && idx < len(mc.Bindings) {
+				bnd := mc.Bindings[idx]
+				if inner, ok := bnd.(*ssa.FreeVar); ok {
+					bnd = bindingOf(inner)
+				}
+				if out != nil && out != bnd {
+					return nil
+				}
+				out = bnd
+			}
+		}
+	}
+	return out
+}
+
+// Returns lists the return instructions of f, excluding the synthetic one in
+// the recover block (which is reached only when a deferred call recovers).
+func Returns(f *ssa.Function) []*ssa.Return {
+	var out []*ssa.Return
+	for _, b := range f.Blocks {
+		if b == f.Recover || len(b.Instrs) == 0 {
+			continue
+		}
+		if r, ok := b.Instrs[len(b.Instrs)-1].(*ssa.Return); ok {
+			out = append(out, r)
+		}
+	}
+	return out
+}
+
+// AllReturnsDominatedBy reports whether ins dominates every (non-recover) return of its function.
+func AllReturnsDominatedBy(ins ssa.Instruction) bool {
+	for _, r := range Returns(ins.Parent()) {
+		if !InstrDominates(ins, r) {
+			return false
+		}
+	}
+	return true
+}
